@@ -810,7 +810,9 @@ func FakeBool(v interface{}) bool {
 		return bol
 	default:
 		vv := dereferenceValue(reflect.ValueOf(v))
-		if vv.IsValid() || vv.IsZero() {
+		// a nil pointer (e.g. inside an interface field) or a zero value is false;
+		// IsZero must not be asked of the invalid Value a nil pointer dereferences to
+		if !vv.IsValid() || vv.IsZero() {
 			return false
 		}
 		return true
